@@ -44,6 +44,10 @@ EXTRA_DOCS = [
     ("same-title-under-all-compositions", {"type": "object", "title": "Root", "anyOf": [{"type": "object", "title": "Same", "properties": {"a": {"type": "integer"}}}], "oneOf": [{"type": "object", "title": "Same", "properties": {"b": {"type": "string"}}}, {"type": "null"}], "allOf": [{"type": "object", "title": "Same", "properties": {"c": {"type": "null"}}}]}, None),
     ("untitled-under-all-compositions", {"type": "object", "anyOf": [{"type": "object", "properties": {"a": {}}}], "oneOf": [{"type": "object", "properties": {"b": {}}}], "allOf": [{"type": "object", "properties": {"c": {}}}], "not": {"type": "object", "properties": {"d": {}}}}, None),
     ("many-element-kinds", {"type": "object", "title": "Kinds", "properties": {"a": {"type": "integer"}, "b": {"type": "string"}, "c": {"type": "number"}, "d": {"type": "boolean"}, "e": {"type": "null"}, "f": {"type": "array", "items": {"anyOf": [{"type": "integer"}, {"not": {"type": "string"}}]}}, "g": {"oneOf": [{"type": "integer"}, {"type": "string"}]}, "h": {"allOf": [{"minimum": 1}, {"maximum": 2}]}, "i": False}}, None),
+    ("untitled-root-items", {"type": "array", "items": {"type": "object", "properties": {"a": {"type": "integer"}}}}, None),
+    ("untitled-root-items-2", {"type": "array", "items": {"type": "object", "properties": {"b": {"type": "string"}}}}, None),
+    ("untitled-root-anyOf", {"anyOf": [{"type": "object", "properties": {"a": {}}}, {"type": "object", "properties": {"b": {}}}]}, None),
+    ("untitled-root-anyOf-2", {"anyOf": [{"type": "object", "properties": {"c": {}}}, {"type": "array", "items": [{"type": "object"}]}]}, None),
     ("many-required", {"type": "object", "title": "Req", "properties": {n: {"type": "integer"} for n in ("zeta", "alpha", "mid", "beta", "omega")}, "required": ["omega", "alpha", "zeta", "beta", "mid"]}, None),
     ("dependencies-and-patterns", {"type": "object", "title": "Dep", "dependencies": {"z": ["a"], "a": ["z"], "m": {"required": ["q"]}}, "patternProperties": {"^z": {"type": "integer"}, "^a": {"type": "string"}, "m$": {"type": "null"}}}, None),
 ]
@@ -55,7 +59,10 @@ def family(tier):
 
 # --------------------------------------------------------------------------- worker process
 def generate_all(tier, order, only=None):
+    from json_ref_dict import RefDict, materialize
     from mc import docs
+    from statham.__main__ import main
+    from statham.titles import title_labeller
     from statham.schema.parser import parse
     from statham.serializers import serialize_json
     from statham.serializers.orderer import get_object_classes
@@ -70,8 +77,10 @@ def generate_all(tier, order, only=None):
     for i in idx:
         label, doc, extra = fam[i]
         try:
-            text = docs.generate(doc, extra)
-            elements = parse(docs.load(doc, extra))
+            name = "root.json" if extra else ("root.json", "inventory.json", "orders.json")[i % 3]
+            uri = docs.put(doc, extra, name=name)
+            text = main(uri + "#/")
+            elements = parse(materialize(RefDict.from_uri(docs.put(doc, extra, name=name) + "#/"), context_labeller=title_labeller()))
             js = json.dumps(serialize_json(*elements))
             names = [c.__name__ for c in get_object_classes(*elements)]
             out[str(i)] = {"py": text, "json": js, "names": names}
